@@ -107,8 +107,7 @@ impl<F: Flavor> Sys<F> {
         for (i, s) in self.slots.iter().enumerate() {
             if let Some(s) = s {
                 let node = F::node(s.fut.get());
-                let linked = node.tag == 1;
-                v.push(LiveNode { group: G, slot: i, node, linked_expected: linked });
+                v.push(LiveNode::new(G, i, node, &s.meta));
             }
         }
         v
